@@ -3,6 +3,7 @@ package config
 // Native replay for C17: real files in a temp dir, real Loader.Load (parsers, mergo, mapstructure).
 
 import (
+	"runtime/debug"
 	"encoding/json"
 	"fmt"
 	"os"
@@ -103,6 +104,8 @@ func TestVerifReplayC17(t *testing.T) {
 	defer os.Chdir(wd)
 	os.Setenv("HOME", dir)
 	cl := NewConfigLoader(NewConfig())
+	fmt.Println("REPLAY-CRASH-MEANS-REPRODUCED (a stack overflow of the process below - an import closure that never ends - is the violation)")
+	debug.SetMaxStack(32 << 20)
 	cfg, lerr := cl.Load(filepath.Join(dir, "a.yaml"))
 	var have []string
 	if cfg != nil {
